@@ -1,5 +1,6 @@
 import PK.Properties.C07
 import PK.Properties.C07Live
+import PK.Properties.C07Offers
 #print axioms PK.phaseInv_step
 #print axioms PK.C07_init
 #print axioms PK.C07_phase_order
@@ -15,3 +16,8 @@ import PK.Properties.C07Live
 #print axioms PK.C07_show_in_street
 #print axioms PK.C07_never_stuck
 #print axioms PK.C07_exactly_one
+#print axioms PK.flv_frame
+#print axioms PK.flagsLen_step
+#print axioms PK.C07_flags_len
+#print axioms PK.C07_offers
+#print axioms PK.C07_offers_reachable
